@@ -978,7 +978,9 @@ class Executor:
             w = t['bits']
             env[ins['name']] = (~x) & ((1 << w) - 1) if isinstance(x, int) else ~x
         elif u == '<-':
-            raise Unsupported('channel receive')
+            if ins.get('commaok'):
+                raise Unsupported('channel receive with comma-ok')
+            env[ins['name']] = self.chan_recv(st, x, ins.get('pos'))
         else:
             raise Unsupported('unop ' + u)
         return st
@@ -1441,8 +1443,13 @@ class Executor:
         env[ins['name']] = SliceV(Ptr(oid, ()), 0, ln, cp)
         return st
 
+    CHAN_CAP = 8
+
     def op_MakeChan(self, fn, ins, env, st):
-        oid = self.new_obj(st, ('chan', ()), None)
+        # a channel is a bounded log: ('chan', count as 8-bit BV, slots); sends append, receives pop the oldest entry
+        t = self.p.T(ins['type'])
+        z = self.zero(t['elem']) if 'elem' in t else 0
+        oid = self.new_obj(st, ('chan', z3.BitVecVal(0, 8), (z,) * self.CHAN_CAP), None)
         env[ins['name']] = Chan(oid)
         return st
 
@@ -1456,9 +1463,27 @@ class Executor:
         x = self.operand(ins['x'], env)
         if ch is None:
             raise Unsupported('send on nil channel (blocks forever)')
-        kind, log = st.heap[ch.obj]
-        st.heap[ch.obj] = (kind, log + (x,))
+        if isinstance(ch, Union):
+            raise Unsupported('send on a guarded union of channels')
+        kind, n, slots = st.heap[ch.obj]
+        full = simp(n == z3.BitVecVal(self.CHAN_CAP, 8))
+        if full is True:
+            raise Inconclusive('channel log capacity %d exceeded' % self.CHAN_CAP)
+        if full is not False:
+            self.oblige(st, 'panic', 'channel log capacity exceeded (send would block)', ins.get('pos'), bnot(full))
+        new = tuple(merge_val(simp(n == z3.BitVecVal(j, 8)), x, slots[j]) for j in range(self.CHAN_CAP))
+        st.heap[ch.obj] = (kind, z3.simplify(n + 1), new)
         return st
+
+    def chan_recv(self, st, ch, pos):
+        if ch is None or isinstance(ch, Union):
+            raise Unsupported('receive on nil/union channel')
+        kind, n, slots = st.heap[ch.obj]
+        empty = simp(n == z3.BitVecVal(0, 8))
+        self.oblige(st, 'panic', 'receive on empty channel (would block)', pos, bnot(empty))
+        v = slots[0]
+        st.heap[ch.obj] = (kind, z3.simplify(n - 1), slots[1:] + (slots[-1],))
+        return v
 
     def op_Extract(self, fn, ins, env, st):
         x = self.operand(ins['x'], env)
@@ -1556,6 +1581,10 @@ class Executor:
     def builtin(self, name, args, c, ins, st):
         if name == 'len' or name == 'cap':
             x = args[0]
+            if isinstance(x, Chan):
+                if name == 'cap':
+                    raise Unsupported('cap of channel')
+                return simp(z3.ZeroExt(56, st.heap[x.obj][1])), st
             return self.len_of(x, name), st
         if name == 'copy':
             return self.do_copy(st, args[0], args[1], ins.get('pos')), st
@@ -1577,7 +1606,7 @@ class Executor:
         if isinstance(x, str):
             return len(x)
         if isinstance(x, Chan):
-            return 0
+            raise Unsupported('len of channel without state')
         if isinstance(x, tuple) or isinstance(x, BigArr):
             return len(x) if isinstance(x, tuple) else x.n
         raise Unsupported('len of %r' % (x,))
